@@ -663,10 +663,6 @@ func oraclePlot(s *kit.Summary, pc plotCase, o plotOut, where string) {
 		viol("panic", "plot panicked: "+o.line, "no panic", o.line)
 		return
 	}
-	if o.addErr >= 0 {
-		viol("add_error", "Add returned an error for an in-domain result", "no error", o.line)
-		return
-	}
 	keys := make([]serKey, 0, len(exp))
 	longest := 0
 	for k, v := range exp {
@@ -674,6 +670,13 @@ func oraclePlot(s *kit.Summary, pc plotCase, o plotOut, where string) {
 		if len(v) > longest {
 			longest = len(v)
 		}
+	}
+	if o.addErr >= 0 {
+		if (pc.Threshold == 1 || pc.Threshold == 2) && longest > pc.Threshold {
+			return // a plot that must be rejected: where the rejection happens (Add or rendering) is free
+		}
+		viol("add_error", "Add returned an error for an in-domain result", "no error", o.line)
+		return
 	}
 	if o.dataErr != nil {
 		if (pc.Threshold == 1 || pc.Threshold == 2) && longest > pc.Threshold {
@@ -1740,6 +1743,23 @@ func plotCmdStream(c *run.Ctx, s *kit.Summary, r *kit.Rng) {
 			for _, x := range pc.Results {
 				p := r.Pick(pc.Files)
 				parts[p] = append(parts[p], x)
+			}
+			if n := len(pc.Results); done%3 == 0 && n >= 4 {
+				// several files that run out in the same round while another one still has results:
+				// 3 or 4 files, all but one of the same small length
+				k := 3 + r.Pick(2)
+				q := 1 + r.Pick(max(1, (n-1)/k))
+				long := r.Pick(k)
+				parts = make([][]res, k)
+				rest := pc.Results
+				for f := 0; f < k; f++ {
+					if f != long {
+						parts[f], rest = rest[:q], rest[q:]
+					}
+				}
+				parts[long] = rest
+				pc.Files = k
+				s.Count("plotcmd:files-run-out-together")
 			}
 			okFiles := true
 			for p, part := range parts {
